@@ -16,6 +16,13 @@
 (*                Classify / Convert / Loop / Finish.  Invariant                  *)
 (*                MechDispatchRefines: result = CDispatch.                        *)
 (*                                                                                *)
+(*  NextScale     ChooseLaw: the concatenation law of elementwise calls on small    *)
+(*                lengths and block sizes (ScaleLaw); ChooseScaleQ / ChooseScaleN:   *)
+(*                the scale cases (quantity, call form, length at / across 2^16).    *)
+(*  NextThreads   NThreads threads on one shared object, one action per atomic step; *)
+(*                invariant ThreadsSequential: every thread gets the sequential      *)
+(*                answer (deviating variant: a memo on the shared struct).           *)
+(*                                                                                *)
 (* With DoExport the enumerated cases are printed as JSON; the harness executes   *)
 (* every one of them against the real code and CosmoTrace.tla judges the records. *)
 EXTENDS Cosmo, Json, IOUtils
@@ -31,6 +38,8 @@ CONSTANTS OmIdx,       \* subset of DOMAIN OmTab
           Lays,        \* ndarray layouts (subset of the entries of LayAll, plus "zerod")
           MaxLen,      \* array lengths 1..MaxLen
           Pairing,     \* "full": every pair of representations; "cover": the covering design below
+          ScaleLens,   \* array lengths of the scale cases (at and across the 65536-element block boundaries)
+          NThreads,    \* threads of the interleaving model
           DoExport,
           Deviate      \* TRUE: the mechanisms deviate (self-test of the refinement invariants)
 
@@ -247,6 +256,71 @@ Finish ==
        \/ mech.pc = "call" /\ mech' = [mech EXCEPT !.pc = "scalar", !.pairs = <<<<0, 0>>>>]
     /\ UNCHANGED <<phase, args, zp, objs, chain, dsp>>
 
+\* ---- scale: the concatenation law on the small scope, and the scale cases ------------------
+ScaleBlock == 65536
+ChooseLaw ==                       \* mech.n = n1, mech.i = n2, mech.pairs = <<B>> : small lengths and block sizes
+    /\ phase = "start"
+    /\ \E n1 \in 0..7, n2 \in 0..7, b \in 1..5, f \in {"vec", "vec1", "vec2", "2vec"} :
+          mech' = [NoMech EXCEPT !.pc = "law", !.branch = f, !.n = n1, !.i = n2, !.pairs = <<b>>]
+    /\ phase' = "law" /\ UNCHANGED <<args, zp, objs, chain, dsp>>
+RECURSIVE ConcatBlocks(_, _, _)
+ConcatBlocks(f, bl, k) == IF k > Len(bl) THEN <<>> ELSE CScalePairs(f, bl[k][1], bl[k][2]) \o ConcatBlocks(f, bl, k + 1)
+ScaleLaw == phase = "law" =>
+    LET f == mech.branch  n1 == mech.n  n2 == mech.i  b == mech.pairs[1]  n == n1 + n2
+        rep == CRep("ndarray", "f8", "contig", n)
+        sc  == CRep("pyfloat", "float", "na", 0)
+        sa  == IF f = "vec2" THEN sc ELSE rep
+        sb  == IF f = "vec" THEN CAbsent ELSE IF f = "vec1" THEN sc ELSE rep
+    IN /\ CScalePairs(f, 0, n) = CScalePairs(f, 0, n1) \o CScalePairs(f, n1, n2)              \* F(a \o b) = F(a) \o F(b)
+       /\ n >= 1 => ConcatBlocks(f, CBlocks(n, b), 1) = CScalePairs(f, 0, n)                  \* ... over any block partition
+       /\ n >= 1 => (CScaleSamples(n, b) \subseteq 1..n /\ \A k \in DOMAIN CBlocks(n, b) :
+                        {CBlocks(n, b)[k][1] + 1, CBlocks(n, b)[k][1] + CBlocks(n, b)[k][2]} \subseteq CScaleSamples(n, b))
+       /\ (n \in 1..3) => CDispatchSet(sa, sb) = {[kind |-> "array", pairs |-> CScalePairs(f, 0, n)]}   \* the small scope of section 6
+       /\ \A i \in 1..n : CScalePair(f, i) = CScalePair(f, i + 3)                               \* tiling with period 3
+
+ChooseScaleQ ==
+    /\ phase = "start"
+    /\ \E q \in Quants : \E f \in CFormsOf(q) : dsp' = [dsp EXCEPT !.q = q] /\ mech' = [NoMech EXCEPT !.pc = "scale", !.branch = f]
+    /\ phase' = "scq" /\ UNCHANGED <<args, zp, objs, chain>>
+ChooseScaleN ==
+    /\ phase = "scq"
+    /\ \E n \in ScaleLens : mech' = [mech EXCEPT !.n = n]
+    /\ phase' = "scale" /\ UNCHANGED <<args, zp, objs, chain, dsp>>
+NextScale == ChooseLaw \/ ChooseScaleQ \/ ChooseScaleN
+NextScaleExport == ChooseScaleQ \/ ChooseScaleN
+
+\* ---- concurrency: NThreads threads call one shared object; one action per atomic step --------
+\* Thread t evaluates NElem elements of a call whose scalar argument (the lens redshift) is its own, t.
+\* Values are uninterpreted tokens.  The real routines only READ the shared struct (TElem).  The deviating
+\* variant memoises the lens distance ON the shared struct in three unsynchronised steps.
+NElem == 2
+TDa(z)        == <<"Da", z>>
+TElemVal(dl, t, i) == <<"scinv", dl, t, i>>
+TSeq(t)       == [i \in 1..NElem |-> TElemVal(TDa(t), t, i)]               \* the sequential answer
+ChooseThreadsQ ==
+    /\ phase = "start"
+    /\ \E q \in Quants : \E f \in CFormsOf(q) : dsp' = [dsp EXCEPT !.q = q]
+          /\ mech' = [pc |-> "threads", branch |-> f, n |-> NElem, i |-> 0, pairs |-> <<>>,
+                      th |-> [t \in 1..NThreads |-> [pc |-> "elem", i |-> 1, dl |-> TDa(0), out |-> <<>>]],
+                      memo |-> [z |-> 0, da |-> TDa(0)]]
+    /\ phase' = "thr" /\ UNCHANGED <<args, zp, objs, chain>>
+TStep(t) ==
+    /\ phase = "thr"
+    /\ LET me == mech.th[t] IN
+       \/ /\ ~Deviate /\ me.pc = "elem" /\ me.i <= NElem                       \* scinv(): reads parameters only
+          /\ mech' = [mech EXCEPT !.th[t].out = Append(@, TElemVal(TDa(t), t, me.i)), !.th[t].i = @ + 1]
+       \/ /\ Deviate /\ me.pc = "elem" /\ me.i <= NElem                        \* if (zl != c->lens_z)
+          /\ mech' = [mech EXCEPT !.th[t].pc = IF mech.memo.z # t THEN "fill1" ELSE "use"]
+       \/ /\ me.pc = "fill1" /\ mech' = [mech EXCEPT !.memo.da = TDa(t), !.th[t].pc = "fill2"]     \* c->lens_da = Da(0, zl)
+       \/ /\ me.pc = "fill2" /\ mech' = [mech EXCEPT !.memo.z = t, !.th[t].pc = "use"]             \* c->lens_z = zl
+       \/ /\ me.pc = "use"                                                                        \* dl = c->lens_da; ...
+          /\ mech' = [mech EXCEPT !.th[t].out = Append(@, TElemVal(mech.memo.da, t, me.i)), !.th[t].i = @ + 1, !.th[t].pc = "elem"]
+       \/ /\ me.pc = "elem" /\ me.i > NElem /\ mech' = [mech EXCEPT !.th[t].pc = "done"]
+    /\ UNCHANGED <<phase, args, zp, objs, chain, dsp>>
+TStepAny == \E t \in 1..NThreads : TStep(t)
+NextThreads == ChooseThreadsQ \/ TStepAny
+ThreadsSequential == phase = "thr" => \A t \in 1..NThreads : mech.th[t].pc = "done" => mech.th[t].out = TSeq(t)
+
 \* ---- cases chosen outside the model (seeded sample): TLC derives their exact side ------
 FileCases == ndJsonDeserialize(IOEnv.CASE_FILE)
 FBlock == 128
@@ -266,7 +340,7 @@ NextScalar   == NextCtor \/ ChooseZ
 NextCopy     == NextCtor \/ Construct \/ CopyAct
 NextDispatch == ChooseQ \/ ChooseSA \/ ChooseSB \/ Classify \/ Convert \/ Loop \/ Finish
 NextDispatchExport == ChooseQ \/ ChooseSA \/ ChooseSB
-Next == NextScalar \/ NextCopy \/ NextDispatch
+Next == NextScalar \/ NextCopy \/ NextDispatch \/ NextThreads
 
 \* ---- properties ----------------------------------------------------------------------
 HaveArgs == phase \in {"args", "z", "obj"}
@@ -321,4 +395,11 @@ ExportCopy     == (DoExport /\ phase = "obj" /\ chain # <<>>) =>
 ExportDispatch == (DoExport /\ phase = "shaped") =>
                         PrintT(<<"CASE", ToJson([t |-> "dispatch", q |-> dsp.q, sa |-> dsp.sa, sb |-> dsp.sb,
                                                   allowed |-> CDispatchSet(dsp.sa, dsp.sb)])>>)
+ExportScale    == (DoExport /\ phase = "scale") =>
+                        PrintT(<<"CASE", ToJson([t |-> "scale", q |-> dsp.q, form |-> mech.branch, n |-> mech.n, block |-> ScaleBlock,
+                                                  samples |-> LET ps == VSortSet(CScaleSamples(mech.n, ScaleBlock))
+                                                              IN [j \in 1..Len(ps) |-> <<ps[j], CScalePair(mech.branch, ps[j])[1],
+                                                                                          CScalePair(mech.branch, ps[j])[2]>>]])>>)
+ExportThreads  == (DoExport /\ phase = "thr") =>
+                        PrintT(<<"CASE", ToJson([t |-> "threads", q |-> dsp.q, form |-> mech.branch])>>)
 =============================================================================
